@@ -441,6 +441,7 @@ impl Property for C27Prop {
                     break;
                 }
             }
+            ctx::add_steps(schedule.len() as u64);
             drop(book);
             store.pool().close().await;
         });
